@@ -35,45 +35,46 @@ type GhostLoopVar struct {
 }
 
 type AssertAt struct {
-	C      Clause
-	Anchor string // e.g. "after call truncateHeaders#0", "before call X#0", "entry"
-	Assume bool
-	Havoc  []Expr // "havoc loc at anchor": rely step for state shared with concurrently running callbacks
-	SetName string // "ghostset $v := e at anchor": ghost assignment executed at the anchor
+	C         Clause
+	Anchor    string // e.g. "after call truncateHeaders#0", "before call X#0", "entry"
+	Assume    bool
+	Havoc     []Expr // "havoc loc at anchor": rely step for state shared with concurrently running callbacks
+	SetTarget Expr   // x.$f for a ghost field target
+	SetName   string // "ghostset $v := e at anchor": ghost assignment executed at the anchor
 }
 
 type FuncContract struct {
-	Pkg         string // package path context
-	Recv        string // receiver type text ("*headerStore", "File", "") as written
-	Name        string
-	ParamNames  []string
-	ParamTypes  []string
-	ResultNames []string
-	Requires    []Clause
-	Ensures     []Clause
-	Modifies    []Expr
-	ModAll      bool
-	Loops       map[int]*LoopSpec
-	Asserts     []AssertAt
-	AssumeOnly  bool // body not verified (trusted); contract used by callers
-	Pure        bool
-	Inline      bool // always inline body at call sites (no contract)
-	NoFrame     bool // do not generate frame obligations
-	Fresh       []string
-	File        string
-	Line        int
-	Header      string
-	Props       []string // property ids this contract serves (from "props C07,C08")
-	PanicsIf    []Clause
-	Extern      bool           // declared in an ext (.gowp) file
-	Ghosts      []GhostLoopVar // function-level ghost variables
-	SingleTx    bool           // single_transaction: all database writes happen inside exactly one walletdb.Update
-	GhostRets   []GhostLoopVar // ghostret $v := e: ghost statement executed at every return (results are in scope)
-	GhostSets   []GhostLoopVar // ghostset $v := e: ghost statement executed on entry of the function (scalar ghost variables)
-	UnblocksOn  []Expr         // every blocking channel operation must be able to fire a receive on one of these channels
-	UnblocksAlso [][]Expr      // further unblocks_on lines: each is an independent requirement of the same kind
-	Durable     bool           // a durable step: callers assert their crash invariant after it
-	Crash       []Clause       // crashstates: holds at every crash point inside the function
+	Pkg          string // package path context
+	Recv         string // receiver type text ("*headerStore", "File", "") as written
+	Name         string
+	ParamNames   []string
+	ParamTypes   []string
+	ResultNames  []string
+	Requires     []Clause
+	Ensures      []Clause
+	Modifies     []Expr
+	ModAll       bool
+	Loops        map[int]*LoopSpec
+	Asserts      []AssertAt
+	AssumeOnly   bool // body not verified (trusted); contract used by callers
+	Pure         bool
+	Inline       bool // always inline body at call sites (no contract)
+	NoFrame      bool // do not generate frame obligations
+	Fresh        []string
+	File         string
+	Line         int
+	Header       string
+	Props        []string // property ids this contract serves (from "props C07,C08")
+	PanicsIf     []Clause
+	Extern       bool           // declared in an ext (.gowp) file
+	Ghosts       []GhostLoopVar // function-level ghost variables
+	SingleTx     bool           // single_transaction: all database writes happen inside exactly one walletdb.Update
+	GhostRets    []GhostLoopVar // ghostret $v := e: ghost statement executed at every return (results are in scope)
+	GhostSets    []GhostLoopVar // ghostset $v := e: ghost statement executed on entry of the function (scalar ghost variables)
+	UnblocksOn   []Expr         // every blocking channel operation must be able to fire a receive on one of these channels
+	UnblocksAlso [][]Expr       // further unblocks_on lines: each is an independent requirement of the same kind
+	Durable      bool           // a durable step: callers assert their crash invariant after it
+	Crash        []Clause       // crashstates: holds at every crash point inside the function
 }
 
 type DefineSpec struct {
@@ -518,7 +519,18 @@ func ParseSpecFile(path string, pkgPath string) (*SpecFile, error) {
 			cur.GhostRets = append(cur.GhostRets, GhostLoopVar{Name: n, Init: e})
 		case "ghostset":
 			n, r2 := firstWord(rest)
-			if !strings.HasPrefix(n, "$") || !strings.HasPrefix(strings.TrimSpace(r2), ":=") {
+			var target Expr
+			if !strings.HasPrefix(n, "$") && strings.Contains(n, ".$") {
+				// ghostset x.$f := e at <anchor>: assignment to a ghost field
+				te, err := ParseExpr(n)
+				if err != nil {
+					return nil, fmt.Errorf("%s:%d: %v", path, it.line, err)
+				}
+				target = te
+			} else if !strings.HasPrefix(n, "$") {
+				return nil, fmt.Errorf("%s:%d: ghostset wants '$v := expr' or 'x.$f := expr at anchor'", path, it.line)
+			}
+			if !strings.HasPrefix(strings.TrimSpace(r2), ":=") {
 				return nil, fmt.Errorf("%s:%d: ghostset wants '$v := expr'", path, it.line)
 			}
 			anchorAt := ""
@@ -532,8 +544,11 @@ func ParseSpecFile(path string, pkgPath string) (*SpecFile, error) {
 				return nil, fmt.Errorf("%s:%d: %v", path, it.line, err)
 			}
 			if anchorAt != "" {
-				cur.Asserts = append(cur.Asserts, AssertAt{C: Clause{E: e, Src: n + " := " + strings.TrimSpace(r2)}, Anchor: anchorAt, SetName: n})
+				cur.Asserts = append(cur.Asserts, AssertAt{C: Clause{E: e, Src: n + " := " + strings.TrimSpace(r2)}, Anchor: anchorAt, SetName: n, SetTarget: target})
 				break
+			}
+			if target != nil {
+				return nil, fmt.Errorf("%s:%d: ghostset on a ghost field needs an anchor", path, it.line)
 			}
 			cur.GhostSets = append(cur.GhostSets, GhostLoopVar{Name: n, Init: e})
 		case "havoc":
